@@ -7,7 +7,7 @@ from .. import core, gen, impl_conc
 from . import c14
 
 ID = "C16"
-BUDGET = {"quick": 150, "thorough": 12000}
+BUDGET = {"quick": 600, "thorough": 60000}
 RULE = ("scenario = one real threading Scheduler with a batch of n = 1-6 due jobs and n_threads m in {0, 1, 2, n-1, n, n+1}, callbacks "
         "that fail (20%) or rendezvous on an n-party barrier (only when m = 0 or m >= n), optionally max_exec with force_exec_all, "
         "optionally a second caller thread running exec_jobs on the same jobs; all worker interleavings are scheduled by the "
